@@ -34,25 +34,38 @@ def edge_sets(obs):
     pa = {(byid[a], byid[b]) for a, b in obs['parent_edges']} if 'parent_edges' in obs else ch
     return ch, pa
 
-def nonterminating(spec, inst, res):
-    """a case the real generator did not finish in time.  Slow is not wrong (python_jsonschema_objects compares
-    structurally and the evaluator multiplies duplicates: exponential on some language / model pairs), but the property
-    promises termination on every finite model: the same language over the sub-models of at most 1, 2 and 3 assets (every
-    link among them kept, so self-links and short cycles stay) is tiny work for the unchanged generator; a generator
-    that does not finish one of those within 10 s is reported."""
+def nonterminating(spec, inst, res, limit=60):
+    """a case the real generator did not finish in time.  Slow is not wrong: the evaluator keeps duplicates, so a chain of
+    n field hops over assets that each have two neighbours yields 2^n entries (measured: a 2-asset model, both assets on
+    both sides of one link, 262 161 edge entries, 6 s).  But the property promises termination on every finite model,
+    cyclic ones included, so a timed-out case is re-run on sub-models on which the unchanged evaluator cannot blow up:
+    at most 3 assets, and links thinned until every (asset, field) has at most ONE neighbour - every hop then maps one
+    asset to at most one asset (only unions still double, bounded by the size of the expression), while self-links and
+    cycles of length 2 and 3 stay.  A generator that twice in a row does not finish such a sub-model within `limit`
+    seconds is reported."""
     from ..common import time_limit, CaseTimeout
     for k in (1, 2, 3):
         for start in range(0, max(1, len(inst['assets']) - k + 1)):
             keep = {a['id'] for a in inst['assets'][start:start + k]}
-            small = {'assets': [a for a in inst['assets'] if a['id'] in keep],
-                     'links': [dict(l, left=[x for x in l['left'] if x in keep], right=[x for x in l['right'] if x in keep]) for l in inst['links']]}
-            small['links'] = [l for l in small['links'] if l['left'] and l['right']]
-            res.bump('termination re-checked on a sub-model of at most 3 assets')
-            try:
-                with time_limit(10):
-                    impl_generate(spec, copy.deepcopy(small))
-            except CaseTimeout:
-                return Violation(what=f'attack-graph generation does not finish within 10 s on a model of {len(small["assets"])} assets and {len(small["links"])} links',
+            used, links = set(), []
+            for l in inst['links']:
+                for x in l['left']:
+                    for y in l['right']:
+                        if x in keep and y in keep and (x, l['rf']) not in used and (y, l['lf']) not in used:
+                            used |= {(x, l['rf']), (y, l['lf'])}
+                            links.append(dict(l, left=[x], right=[y]))
+            small = {'assets': [a for a in inst['assets'] if a['id'] in keep], 'links': links}
+            res.bump('termination re-checked on a thinned sub-model of at most 3 assets')
+            late = 0
+            for attempt in range(2):
+                try:
+                    with time_limit(limit):
+                        impl_generate(spec, copy.deepcopy(small))
+                    break
+                except CaseTimeout:
+                    late += 1
+            if late == 2:
+                return Violation(what=f'attack-graph generation does not finish within {limit} s (tried twice) on a model of {len(small["assets"])} assets and {len(small["links"])} one-to-one links',
                                  fingerprint='C01:no-termination', replay={'spec': spec, 'inst': small, 'churn_seed': None})
     return None
 
@@ -193,9 +206,9 @@ def replay(path):
     r = json.load(open(path))
     from ..common import time_limit, CaseTimeout
     try:
-        with time_limit(60):
+        with time_limit(240):
             v = check_case(r['spec'], r['inst'], None, Result(), churn_seed=r.get('churn_seed'))
     except CaseTimeout:
-        print('generation did not finish within 60 s'); print('VIOLATION reproduced'); return 1
+        print('generation did not finish within 240 s'); print('VIOLATION reproduced'); return 1
     print(v.what if v else 'no violation'); print('VIOLATION reproduced' if v else 'not reproduced')
     return 1 if v else 0
